@@ -25,6 +25,11 @@ structure Cfg (P : Type) where
   self : P
   /-- strict total order on peers: nearer to the key -/
   lt : P → P → Bool
+  /-- lookup-level IP diversity filter (rt_diversity_filter.go `filterPeersByIPDiversity`): at most `divLimit`
+      peers of one IP group are accepted from one response, 0 = filter off -/
+  divLimit : Nat := 0
+  /-- the IP group of a peer's address -/
+  group : P → Nat := fun _ => 0
 
 variable {P : Type} [DecidableEq P]
 
@@ -106,9 +111,14 @@ inductive Outcome (P : Type) where
   | fail                          -- dial or request failed
   | resp (peers : List P)         -- closer peers as they arrived on the wire
 
-/-- `queryPeer`'s post-processing of a response: 2K cap, (diversity filter: off), drop self, query filter -/
+/-- `filterPeersByIPDiversity`: every peer of a group that holds more than `limit` distinct peers is dropped -/
+def divFilter (limit : Nat) (group : P → Nat) (peers : List P) : List P :=
+  if limit == 0 then peers else
+  peers.filter fun p => (peers.eraseDups.filter fun q => group q == group p).length ≤ limit
+
+/-- `queryPeer`'s post-processing of a response: 2K cap, IP diversity filter, drop self, query filter -/
 def ingest (cfg : Cfg P) (accept : P → Bool) (peers : List P) : List P :=
-  ((peers.take (2 * cfg.K)).filter fun p => p != cfg.self && accept p)
+  ((divFilter cfg.divLimit cfg.group (peers.take (2 * cfg.K))).filter fun p => p != cfg.self && accept p)
 
 inductive Ev (P : Type) where
   | deliver (p : P) (o : Outcome P)
